@@ -27,6 +27,7 @@ func init() {
 		Families: []core.Family{
 			{Name: "mixed", N: core.TierN(600, 32000), Batch: 20, Run: c14Mixed},
 			{Name: "shrink-gated", N: core.TierN(300, 16000), Batch: 20, Run: c14Shrink},
+			{Name: "sustained-arrivals", N: core.TierN(12, 120), Batch: 4, Run: c14Sustained},
 			{Name: "micro-churn", N: core.TierN(64, 2560), Batch: 4, Run: c14Churn},
 		},
 	})
@@ -424,4 +425,66 @@ func c14Churn(c *core.Ctx) {
 		c.Nontrivial()
 	}
 	c.Sig("churn", c.Index, overlapped > 0)
+}
+
+// c14Sustained: the pool is saturated, one call (the victim) is queued, and closed-loop feeders keep the queue from
+// ever draining. "Eventually executed" is restated as bounded bypass: the victim must have started before the feeders,
+// which all queued after it, have completed 2000 calls (a FIFO queue lets at most the queue length pass).
+func c14Sustained(c *core.Ctx) {
+	count := 1 + c.Rng.IntN(3)
+	feeders := 4 + c.Rng.IntN(8)
+	w := new(bigbuff.Workers)
+	p := c.NewPerturb(core.PerturbOpts{P: core.Pick(c.Rng, 0, 0.02)})
+	defer p.Stop()
+	gate := make(chan struct{})
+	var entered, victimRan, completed atomic.Int64
+	var stop atomic.Bool
+	var wg sync.WaitGroup
+	for i := 0; i < count; i++ { // saturate the pool
+		wg.Add(1)
+		go func() {
+			defer wg.Done()
+			w.Call(count, func() (interface{}, error) { entered.Add(1); <-gate; return nil, nil })
+		}()
+	}
+	if !core.WaitUntil(5000, func() bool { return entered.Load() == int64(count) }) {
+		c.Violate("call-starved", "the first %d calls with count %d did not all start", count, count)
+		close(gate)
+		return
+	}
+	wg.Add(1)
+	go func() { // the victim: queued first
+		defer wg.Done()
+		w.Call(count, func() (interface{}, error) { victimRan.Store(completed.Load() + 1); return nil, nil })
+	}()
+	core.WaitUntil(5000, func() bool { _, _, q := w.VerifState(); return q >= 1 })
+	for f := 0; f < feeders; f++ { // closed-loop feeders: each queues its next call as soon as the previous returned
+		wg.Add(1)
+		go func() {
+			defer wg.Done()
+			for !stop.Load() {
+				// (the function takes a little while, so that the feeders re-queue faster than the pool drains)
+				w.Call(count, func() (interface{}, error) { time.Sleep(20 * time.Microsecond); completed.Add(1); return nil, nil })
+			}
+		}()
+	}
+	core.WaitUntil(5000, func() bool { _, _, q := w.VerifState(); return q >= feeders/2+1 })
+	close(gate)
+	const limit = 2000
+	core.WaitUntil(20000, func() bool { return victimRan.Load() != 0 || completed.Load() >= limit })
+	ran := victimRan.Load()
+	done := completed.Load()
+	stop.Store(true)
+	if !core.AwaitDone(core.Go(wg.Wait), 10000) {
+		c.Violate("call-starved", "calls did not return after the feeders stopped (victim ran: %v)", ran != 0)
+		c.SetDump(core.DumpAll())
+		return
+	}
+	if ran == 0 || ran > limit {
+		c.Violate("queued-call-bypassed", "a call queued before %d feeders started had not run when %d later-queued calls had completed (count=%d)", feeders, done, count)
+	}
+	c.Op("call", int(done)+count+1)
+	c.Count("later_calls_completed_before_victim", int(ran))
+	c.Nontrivial()
+	c.Sig("sustained", count, feeders)
 }
